@@ -1,7 +1,8 @@
 import FrappyModel.Base.NumCompat
+import FrappyProofs.Lemmas.RatLawful
 /-
-The exact carrier `Rat` satisfies the additional carrier laws `CompatLaws` (Base/NumCompat.lean) and the
-laws `LawfulFloatOps` (Base/Num.lean): the laws are consistent (non-vacuity).
+The exact carrier `Rat` satisfies the additional carrier laws `CompatLaws` (Base/NumCompat.lean): the
+laws are consistent with `LawfulFloatOps Rat` (`RatLawful.lean`) — non-vacuity of the C03 theorems.
 -/
 namespace Frappy
 open FloatOps DType
@@ -10,22 +11,16 @@ namespace RatLaws
 
 theorem big_pos : (0 : Rat) ≤ RatCarrier.big := by decide
 
-theorem ofInt_zero : (ofInt (0 : Int) : Option Rat) = some 0 := by
-  show (if (-RatCarrier.big ≤ ((0 : Int) : Rat) ∧ ((0 : Int) : Rat) ≤ RatCarrier.big) then some ((0 : Int) : Rat) else none) = some 0
-  rw [if_pos (by decide)]; rfl
-
-theorem ofInt_one : (ofInt (1 : Int) : Option Rat) = some 1 := by
-  show (if (-RatCarrier.big ≤ ((1 : Int) : Rat) ∧ ((1 : Int) : Rat) ≤ RatCarrier.big) then some ((1 : Int) : Rat) else none) = some 1
-  rw [if_pos (by decide)]; rfl
+theorem ofInt_eq (i : Int) : (ofInt i : Option Rat) = some (i : Rat) := rfl
 
 theorem positive_iff (s : Rat) : positive s = true ↔ 0 < s := by
-  unfold positive; rw [ofInt_zero]; show decide ((0 : Rat) < s) = true ↔ _; simp
+  unfold positive; rw [ofInt_eq]; show decide (((0 : Int) : Rat) < s) = true ↔ _; simp
 
 theorem nonneg_iff (s : Rat) : nonneg s = true ↔ 0 ≤ s := by
-  unfold nonneg; rw [ofInt_zero]; show decide ((0 : Rat) ≤ s) = true ↔ _; simp
+  unfold nonneg isNonneg; rw [ofInt_eq]; show decide (((0 : Int) : Rat) ≤ s) = true ↔ _; simp
 
 theorem resLeOne_iff (s : Rat) : resLeOne s = true ↔ s ≤ 1 := by
-  unfold resLeOne; rw [ofInt_one]; show decide (s ≤ (1 : Rat)) = true ↔ _; simp
+  unfold resLeOne; rw [ofInt_eq]; show decide (s ≤ ((1 : Int) : Rat)) = true ↔ _; simp
 
 theorem le_iff (x y : Rat) : le x y = true ↔ x ≤ y := by
   show decide (x ≤ y) = true ↔ _; simp
@@ -57,13 +52,29 @@ theorem tol_nonneg' (rr ar x : Rat) (har : 0 ≤ ar) : 0 ≤ tolerance rr ar x :
 
 theorem sub_eq (x y : Rat) : (sub x y : Rat) = x - y := rfl
 theorem add_eq (x y : Rat) : (add x y : Rat) = x + y := rfl
+theorem mul_eq (x y : Rat) : (mul x y : Rat) = x * y := rfl
+theorem div_eq (x y : Rat) : (div x y : Rat) = x / y := rfl
 theorem neg_eq (x : Rat) : (neg x : Rat) = -x := rfl
 theorem maxFinite_eq : (maxFinite : Rat) = RatCarrier.big := rfl
-theorem isNaN_eq (x : Rat) : isNaN x = false := rfl
-theorem addZero_eq (x : Rat) : addZero x = x := rfl
+theorem round_eq (x : Rat) : (round x : Option Int) = some (RatCarrier.round x) := rfl
 
-theorem ofInt_eq (i : Int) : (ofInt i : Option Rat) =
-    if (-RatCarrier.big ≤ (i : Rat) ∧ (i : Rat) ≤ RatCarrier.big) then some (i : Rat) else none := rfl
+/-- `round(x/s)·s` is within half a scale of `x` -/
+theorem round_mul_bounds (x s : Rat) (hs : 0 < s) :
+    ((RatCarrier.round (x / s) : Int) : Rat) * s ≤ x + s / 2 ∧ x - s / 2 < ((RatCarrier.round (x / s) : Int) : Rat) * s := by
+  unfold RatCarrier.round
+  have h1 : (((x / s + 1 / 2).floor : Int) : Rat) ≤ x / s + 1 / 2 := Rat.floor_le _
+  have h2 : x / s + 1 / 2 < (((x / s + 1 / 2).floor : Int) : Rat) + 1 := by
+    have := Rat.lt_floor_add_one (x / s + 1 / 2)
+    rw [Rat.intCast_add] at this
+    exact this
+  have hne : s ≠ 0 := by grind
+  have hx : x / s * s = x := Rat.div_mul_cancel hne
+  have hs' : 0 ≤ s := by grind
+  constructor
+  · have := Rat.mul_le_mul_of_nonneg_right h1 hs'
+    grind
+  · have := Rat.mul_lt_mul_of_pos_right h2 hs
+    grind
 
 end RatLaws
 
@@ -73,10 +84,10 @@ instance instCompatLawsRat : CompatLaws Rat where
     intro x y h _ _
     have h' : decide (x = y) = true := h
     simpa using h'
+  lt_notNaN := fun _ _ _ => ⟨rfl, rfl⟩
   addZero_isNaN := fun _ => rfl
   addZero_le_left := fun _ _ => rfl
   addZero_le_right := fun _ _ => rfl
-  addZero_idem := fun _ => rfl
   finite_between := by
     intro a x b ha hb hax hxb
     rw [isFinite_iff] at *; rw [le_iff] at hax hxb
@@ -90,19 +101,12 @@ instance instCompatLawsRat : CompatLaws Rat where
     rw [le_iff, neg_eq, maxFinite_eq] at h1
     rw [le_iff, maxFinite_eq] at h2
     rw [isFinite_iff]; exact ⟨h1, h2⟩
-  ofInt_between := by
-    intro lo i hi a b ha hb h1 h2
-    rw [ofInt_eq] at ha hb
-    split at ha <;> try contradiction
-    split at hb <;> try contradiction
-    rename_i hlo hhi
-    have e1 : (lo : Rat) ≤ (i : Rat) := Rat.intCast_le_intCast.mpr h1
-    have e2 : (i : Rat) ≤ (hi : Rat) := Rat.intCast_le_intCast.mpr h2
-    refine ⟨(i : Rat), ?_⟩
-    rw [ofInt_eq, if_pos]
-    grind
-  ofInt_intLimit := by
-    intro i h1 h2
+  ofInt_between := fun _ i _ _ _ _ _ _ _ => ⟨(i : Rat), rfl⟩
+  ofInt_finite := by
+    intro i y h1 h2 hy
+    rw [ofInt_eq] at hy
+    injection hy with hy
+    subst hy
     have hb : RatCarrier.big = ((179769313486231570000 : Int) : Rat) := by decide
     have e1 : ((-DType.intLimit : Int) : Rat) ≤ (i : Rat) := Rat.intCast_le_intCast.mpr h1
     have e2 : (i : Rat) ≤ ((DType.intLimit : Int) : Rat) := Rat.intCast_le_intCast.mpr h2
@@ -112,23 +116,13 @@ instance instCompatLawsRat : CompatLaws Rat where
       Rat.intCast_le_intCast.mpr (by decide)
     have b3 : ((-179769313486231570000 : Int) : Rat) = -((179769313486231570000 : Int) : Rat) := by
       simp [Rat.intCast_neg]
-    refine ⟨(i : Rat), ?_⟩
-    rw [ofInt_eq, if_pos]
-    rw [hb]
+    rw [isFinite_iff, hb]
     grind
-  div_notNaN := fun _ _ _ _ _ => rfl
+  round_between := fun _ x _ _ _ _ _ _ _ => ⟨RatCarrier.round x, rfl⟩
   tol_nonneg := by
     intro rr ar x _ _ _ har _
     rw [nonneg_iff] at har
     exact ⟨rfl, (nonneg_iff _).mpr (tol_nonneg' rr ar x har)⟩
-  sub_nonneg_le := by
-    intro m p _ _ hp
-    rw [nonneg_iff] at hp
-    rw [le_iff, sub_eq]; grind
-  le_add_nonneg := by
-    intro m p _ _ hp
-    rw [nonneg_iff] at hp
-    rw [le_iff, add_eq]; grind
   band_lo_mono := by
     intro m rr ar x y _ _ h0 h1 _ _ _ _ hxy h
     rw [nonneg_iff] at h0
@@ -145,151 +139,29 @@ instance instCompatLawsRat : CompatLaws Rat where
     rw [le_iff, add_eq] at h ⊢
     have := tol_step rr ar x y h0 h1 hxy
     grind
-  sub_pos_lt := by
-    intro m s _ _ hs
+  grid_ge_lt := by
+    intro m s x y k _ _ hs hk hy h
     rw [positive_iff] at hs
-    rw [lt_iff, sub_eq]; grind
-  lt_add_pos := by
-    intro m s _ _ hs
-    rw [positive_iff] at hs
-    rw [lt_iff, add_eq]; grind
-
-namespace RatLaws
-
-def bigI : Int := 179769313486231570000
-
-theorem big_eq : RatCarrier.big = (bigI : Rat) := by decide
-
-theorem round_eq (x : Rat) : (round x : Option Int) =
-    if (-RatCarrier.big ≤ x ∧ x ≤ RatCarrier.big) then some (RatCarrier.round x) else none := rfl
-
-theorem trunc_eq (x : Rat) : (trunc x : Option Int) =
-    if (-RatCarrier.big ≤ x ∧ x ≤ RatCarrier.big) then some (RatCarrier.trunc x) else none := rfl
-
-theorem round_bounds (x : Rat) (h : -RatCarrier.big ≤ x ∧ x ≤ RatCarrier.big) :
-    -RatCarrier.big ≤ ((RatCarrier.round x : Int) : Rat) ∧ ((RatCarrier.round x : Int) : Rat) ≤ RatCarrier.big := by
-  rw [big_eq] at h ⊢
-  unfold RatCarrier.round
-  have h1 : (-bigI) ≤ (x + 1/2).floor := by
-    rw [Rat.le_floor_iff, Rat.intCast_neg]; grind
-  have h2 : (x + 1/2).floor < bigI + 1 := by
-    rw [Rat.floor_lt_iff, Rat.intCast_add]
-    have : ((1 : Int) : Rat) = 1 := rfl
-    grind
-  have h2' : (x + 1/2).floor ≤ bigI := by omega
-  rw [← Rat.intCast_neg]
-  exact ⟨Rat.intCast_le_intCast.mpr h1, Rat.intCast_le_intCast.mpr h2'⟩
-
-end RatLaws
-
-open RatLaws in
-instance instLawfulFloatOpsRat : LawfulFloatOps Rat where
-  same_iff := by
-    intro x y
-    show decide (x = y) = true ↔ _
-    simp
-  le_notNaN := fun _ _ _ => ⟨rfl, rfl⟩
-  lt_notNaN := fun _ _ _ => ⟨rfl, rfl⟩
-  le_refl := by
-    intro x _; rw [le_iff]; exact Rat.le_refl
-  le_total := by
-    intro x y _ _; rw [le_iff, le_iff]; exact Rat.le_total
-  le_trans := by
-    intro x y z h1 h2; rw [le_iff] at *; exact Rat.le_trans h1 h2
-  lt_iff := by
-    intro x y _ _
-    show decide (x < y) = true ↔ decide (y ≤ x) = false
-    simp [Rat.not_le]
-  feq_refl := by
-    intro x _
-    show decide (x = x) = true
-    simp
-  maxFinite_notNaN := rfl
-  neg_maxFinite_notNaN := rfl
-  neg_max_le_max := by
-    rw [le_iff, neg_eq, maxFinite_eq]; decide
-  ofInt_small := by
-    intro i h1 h2
-    have : i = -1 ∨ i = 0 ∨ i = 1 := by omega
-    rcases this with rfl | rfl | rfl
-    · exact ⟨_, if_pos (by decide)⟩
-    · exact ⟨_, if_pos (by decide)⟩
-    · exact ⟨_, if_pos (by decide)⟩
-  ofInt_finite := by
-    intro i y h
-    rw [ofInt_eq] at h
-    split at h <;> try contradiction
-    rename_i hi
-    cases h
-    rw [isFinite_iff]; exact hi
-  ofInt_mono := by
-    intro i j x y hij hx hy
-    rw [ofInt_eq] at hx hy
-    split at hx <;> try contradiction
-    split at hy <;> try contradiction
-    cases hx; cases hy
-    rw [le_iff]; exact Rat.intCast_le_intCast.mpr hij
-  round_ofInt := by
-    intro x k h
-    rw [round_eq] at h
-    split at h <;> try contradiction
-    rename_i hx
-    cases h
-    exact ⟨_, by rw [ofInt_eq, if_pos (round_bounds x hx)]⟩
-  round_mono := by
-    intro x y i j hxy hx hy
-    rw [le_iff] at hxy
-    rw [round_eq] at hx hy
-    split at hx <;> try contradiction
-    split at hy <;> try contradiction
-    cases hx; cases hy
-    unfold RatCarrier.round
-    apply Rat.floor_monotone
-    grind
-  trunc_of_integral := by
-    intro x y k hx hy hf
-    have hf' : decide (y = x) = true := hf
-    have hyx : y = x := by simpa using hf'
+    rw [div_eq, round_eq] at hk
+    injection hk with hk
     rw [ofInt_eq] at hy
-    split at hy <;> try contradiction
-    rename_i hk
-    cases hy
-    subst hyx
-    rw [trunc_eq, if_pos hk]
-    unfold RatCarrier.trunc
-    split
-    · rw [Rat.floor_intCast]
-    · rw [← Rat.intCast_neg, Rat.floor_intCast]; simp
-  round_isSome := by
-    intro x
-    rw [round_eq]
-    by_cases h : (-RatCarrier.big ≤ x ∧ x ≤ RatCarrier.big)
-    · rw [if_pos h, (isFinite_iff x).mpr h]; rfl
-    · rw [if_neg h]
-      have : isFinite x ≠ true := fun hf => h ((isFinite_iff x).mp hf)
-      simp at this
-      rw [this]; rfl
-  trunc_isSome := by
-    intro x
-    rw [round_eq, trunc_eq]
-    split <;> rfl
-  div_mono := by
-    intro x y s hxy _ hs _ _
-    obtain ⟨z, hz, hzs⟩ := hs
-    rw [ofInt_zero] at hz; cases hz
-    rw [lt_iff] at hzs
-    rw [le_iff] at hxy ⊢
-    show x / s ≤ y / s
-    rw [Rat.div_def, Rat.div_def]
-    have : 0 < s⁻¹ := Rat.inv_pos.mpr hzs
-    exact Rat.mul_le_mul_of_nonneg_right hxy (Rat.le_of_lt this)
-  mul_mono := by
-    intro x y s hxy _ hs _ _
-    obtain ⟨z, hz, hzs⟩ := hs
-    rw [ofInt_zero] at hz; cases hz
-    rw [lt_iff] at hzs
-    rw [le_iff] at hxy ⊢
-    exact Rat.mul_le_mul_of_nonneg_right hxy (Rat.le_of_lt hzs)
-  mul_comm := fun x y => Rat.mul_comm x y
+    injection hy with hy
+    subst hy; subst hk
+    rw [le_iff, mul_eq] at h
+    rw [lt_iff, sub_eq]
+    have := (round_mul_bounds x s hs).1
+    grind
+  grid_le_lt := by
+    intro m s x y k _ _ hs hk hy h
+    rw [positive_iff] at hs
+    rw [div_eq, round_eq] at hk
+    injection hk with hk
+    rw [ofInt_eq] at hy
+    injection hy with hy
+    subst hy; subst hk
+    rw [le_iff, mul_eq] at h
+    rw [lt_iff, add_eq]
+    have := (round_mul_bounds x s hs).2
+    grind
 
 end Frappy
